@@ -47,10 +47,13 @@ class Facts:
         self.impls = d["impls"]
         self.mono = d.get("mono")
         self.fns = {}
+        self.by_dp = {}
         self.closures = defaultdict(list)
         for f in d["fns"]:
             fn = Fn(f, self)
             self.fns[fn.path] = fn
+            if f.get("dp"):
+                self.by_dp[f["dp"]] = fn
         for fn in self.fns.values():
             if fn.kind == "closure":
                 # direct lexical parent: strip the last ::{closure#n}
